@@ -133,8 +133,12 @@ def _f(rng: random.Random) -> float:
 def synth(rng: random.Random, layout: str = 'v20', *, compress: tuple = (), origin_vertex: bool = True,
           faceids: str = 'full', water: bool = True, overlay_aux: bool = True, vis: bool = True,
           n_extra: int = 1, extra_game: bool = False, compress_game: tuple = (), fractional_bounds: bool = False,
-          detail_shapes: bool = False, hdr: bool = True) -> tuple[bytes, dict]:
-    """Build one consistent BSP. Returns (file bytes, description)."""
+          detail_shapes: bool = False, hdr: bool = True, bad: tuple = ()) -> tuple[bytes, dict]:
+    """Build one consistent BSP. Returns (file bytes, description).
+    `bad` makes lumps malformed so that looking at their view raises: 'sprp_version' (static props of the unknown
+    version 14: the reader raises at once), 'sprp_size' (3 stray bytes: the reader raises after it looked at visleafs),
+    'ents' (last entity not terminated), 'texinfo' (a texinfo naming a texdata that does not exist), 'dprp' (detail
+    prop lump cut short), 'overlays' (lump cut in the middle of a record)."""
     import srctools.bsp as B
     magic, version, l4d2, layname = LAYOUTS[layout]
     L = getattr(B, layname)
@@ -323,10 +327,23 @@ def synth(rng: random.Random, layout: str = 'v20', *, compress: tuple = (), orig
     for k in kinds:
         dp.write(struct.pack('<3f3fHH4BI5B3xB3xf', _f(rng), _f(rng), 8.0, 0.0, 45.0, 0.0, 0, 1 + k % 2, 255, 200, 100, 255,
                              0, 0, 3, 30 if k >= 2 else 0, 20 if k >= 2 else 0, k % 3, k, 1.25))
-    games: list[tuple[bytes, int, int, bytes]] = [(b'sprp', 1 if 'sprp' in compress_game else 0, sp_ver, sp.getvalue())]
+    sp_data, dp_data = sp.getvalue(), dp.getvalue()
+    if 'sprp_version' in bad:
+        sp_ver = 14
+    if 'sprp_size' in bad:
+        sp_data += b'\x01\x02\x03'
+    if 'dprp' in bad:
+        dp_data = dp_data[:-7]
+    if 'ents' in bad:
+        d['ENTITIES'] = d['ENTITIES'][:-3] + b'\x00'          # the closing brace of the last entity is gone
+    if 'texinfo' in bad:
+        d['TEXINFO'] = d['TEXINFO'][:-4] + struct.pack('<i', 77)
+    if 'overlays' in bad:
+        d['OVERLAYS'] = d['OVERLAYS'][:-9]
+    games: list[tuple[bytes, int, int, bytes]] = [(b'sprp', 1 if 'sprp' in compress_game else 0, sp_ver, sp_data)]
     if extra_game:
         games.append((b'xtra', (1 if 'xtra' in compress_game else 0) | 0x4, 3, bytes(rng.randrange(256) for _ in range(77))))
-    games.append((b'dprp', 1 if 'dprp' in compress_game else 0, 4, dp.getvalue()))
+    games.append((b'dprp', 1 if 'dprp' in compress_game else 0, 4, dp_data))
     lumps: dict[int, tuple[int, bytes, bool]] = {}
     for nm, data in d.items():
         idx = P[nm].value
@@ -339,6 +356,6 @@ def synth(rng: random.Random, layout: str = 'v20', *, compress: tuple = (), orig
     blob = encode_container(magic, version, l4d2, rev, lumps, games)
     desc = dict(layout=layout, compress=sorted(compress), compress_game=sorted(compress_game), origin_vertex=origin_vertex,
                 faceids=faceids, water=water, overlay_aux=overlay_aux, vis=vis, n_extra=n_extra, extra_game=extra_game,
-                fractional_bounds=fractional_bounds, detail_shapes=detail_shapes, hdr=hdr, map_revision=rev, size=len(blob))
+                fractional_bounds=fractional_bounds, detail_shapes=detail_shapes, hdr=hdr, bad=sorted(bad), map_revision=rev, size=len(blob))
     desc['_parts'] = dict(magic=magic, version=version, l4d2=l4d2, map_revision=rev, lumps=lumps, games=games)
     return blob, desc
